@@ -26,9 +26,14 @@ def log(msg):
     print(msg, file=sys.stderr, flush=True)
 
 
+REPO = os.environ.get("VERIF_REPO", "/repo")
+
+
 def cargo_env():
     env = dict(os.environ)
     env["CARGO_NET_OFFLINE"] = "true"
+    env["VERIF_DIR"] = VERIF
+    env["VERIF_REPO"] = REPO
     env.pop("RUSTFLAGS", None)  # .cargo/config.toml carries --cfg eqlog_verif
     env.pop("CARGO_TARGET_DIR", None)
     return env
